@@ -681,11 +681,19 @@ fn rand_scenario(rng: &mut StdRng, sc: usize, out: Box<dyn std::io::Write>, kv: 
                 }
             }
             x if x < 100 + w_scripts => {
-                let cmd = ["all", "partial", "delete"][rng.gen_range(0..3)];
+                let mut cmd = ["all", "partial", "delete"][rng.gen_range(0..3)];
                 let maxn = nleaf;
-                let list = rand_list(rng, maxn, true);
+                let mut list = rand_list(rng, maxn, true);
+                // with matched blocks pending, often the documented no-op (partial / delete with an empty list): the
+                // in-memory map is emptied, the records stay in the store
+                let pending = sim.state()["mdb"].as_array().map(|a| !a.is_empty()).unwrap_or(false);
+                let noop = pending && rng.gen_bool(0.6);
+                if noop {
+                    cmd = ["partial", "delete"][rng.gen_range(0..2)];
+                    list.clear();
+                }
                 env.set_scripts(&mut sim, cmd, &list);
-                if env.peers[i].connected && rng.gen_bool(0.4) {
+                if env.peers[i].connected && (noop || rng.gen_bool(0.4)) {
                     // the next batch arrives before any tick (set_scripts empties the in-memory map of matched
                     // blocks; with an empty list the records in the store stay)
                     env.unsolicited_filters(&mut sim, i);
